@@ -692,12 +692,22 @@ func (g *xgen) applyEdit(doc *etree.Document, rs *ResponseSpec, w *World, kind i
 		}
 	case 12: // swap KeyInfo certificate
 		if x := findFirst(root, "X509Certificate"); x != nil {
-			x.SetText(pick(r, w.IdP2.B64(), w.Attacker.B64(), w.Other.B64()))
+			nk := []*KeyPair{w.IdP2, w.Attacker, w.Other}[r.Intn(3)]
+			x.SetText(nk.B64())
+			// the generator's record of how THIS signature can verify changes with the edit (a signature made with trusted2
+			// under a mismatching certificate becomes a good one when the attacker swaps trusted2's certificate in)
+			if ki := x.Parent(); ki != nil && ki.Parent() != nil && ki.Parent().Parent() != nil && ki.Parent().Parent().Tag == "Signature" {
+				g.updateSignOpts(rs, root, ki.Parent().Parent(), func(o *SignOpts) { o.EmbedCert, o.NoKeyInfo = nk, false })
+			}
 			return "swap-keyinfo-certificate"
 		}
 	case 13: // remove KeyInfo
 		if k := findFirst(root, "KeyInfo"); k != nil && k.Parent() != nil && k.Parent().Tag == "Signature" {
-			k.Parent().RemoveChild(k)
+			sigEl := k.Parent()
+			sigEl.RemoveChild(k)
+			// without KeyInfo the verifier falls back to the store's only certificate: a signature made under a MISMATCHING
+			// embedded certificate becomes a good one when the store is exactly {signing key}
+			g.updateSignOpts(rs, root, sigEl, func(o *SignOpts) { o.EmbedCert, o.NoKeyInfo = nil, true })
 			return "remove-keyinfo"
 		}
 	case 14: // wrap the whole Response into a new unsigned Response with a forged assertion
@@ -765,6 +775,33 @@ func (g *xgen) applyEdit(doc *etree.Document, rs *ResponseSpec, w *World, kind i
 		return "signaturevalidated-attribute"
 	}
 	return ""
+}
+
+// updateSignOpts: an attacker edit changed the KeyInfo of the ds:Signature sigEl; the record of the signature it belongs to
+// (the Response's when its parent is the root, else the assertion with the parent's ID) is replaced by an updated copy.
+func (g *xgen) updateSignOpts(rs *ResponseSpec, root, sigEl *etree.Element, f func(*SignOpts)) {
+	upd := func(o *SignOpts) *SignOpts {
+		if o == nil {
+			return nil
+		}
+		c := *o
+		f(&c)
+		return &c
+	}
+	owner := sigEl.Parent()
+	if owner == nil {
+		return
+	}
+	if owner == root {
+		rs.SignedBy = upd(rs.SignedBy)
+		return
+	}
+	id := owner.SelectAttrValue("ID", "")
+	for _, a := range rs.Assertions {
+		if a.ID == id {
+			a.SignedBy = upd(a.SignedBy)
+		}
+	}
 }
 
 func markRelocated(rs *ResponseSpec, el *etree.Element) {
@@ -883,7 +920,7 @@ func runResponseStream(c *Ctx, n int, focus string) {
 		now := g.now
 		if focus == "C02" && r.Intn(3) == 0 {
 			// clock sweep around the certificate window
-			off := []time.Duration{-time.Second, 0, time.Second}[r.Intn(3)]
+			off := []time.Duration{-time.Second, -time.Nanosecond, 0, time.Nanosecond, 400 * time.Millisecond, 999 * time.Millisecond, time.Second}[r.Intn(7)] // certificates have whole-second bounds: a clock a fraction of a second past NotAfter is outside
 			if r.Intn(2) == 0 {
 				now = certNB.Add(off)
 			} else {
@@ -946,9 +983,27 @@ func runResponseStream(c *Ctx, n int, focus string) {
 				mod = func(o *SignOpts) { o.EmbedCert = w.IdP2 } // another (maybe trusted) cert, key mismatch
 			}
 		}
+		// a genuine, individually signed FIRST assertion that alone exhausts the 1 000-visit traversal budget the
+		// name-space-aware searches share (goxmldsig / etreeutils), in an unsigned Response: whatever follows it — an
+		// unsigned forged sibling is appended below — is never reached by the search for assertions, so the only sound
+		// outcome is rejection ("an unsigned Response is accepted only if EVERY assertion it carries is individually signed")
+		hugeFirst := focus == "C01" && (k == 57 || (c.Thorough() && k%500 == 57))
+		if hugeFirst {
+			vals := make([]string, 520+r.Intn(200))
+			for i := range vals {
+				vals[i] = fmt.Sprintf("group-%04d", i)
+			}
+			a0 := rs.Assertions[0]
+			a0.Attrs = []AttrSpec{{Name: "groups", Values: vals}}
+			a0.XsiTypes, a0.CommentInValues, a0.UseCDATA = false, false, false
+			placement, key, mod = 2, w.IdP1, nil
+			store = []*KeyPair{w.IdP1}
+			sp.IDPCertificateStore = g.newSPFor(store, now).IDPCertificateStore
+			sp.SkipSignatureValidation = false
+		}
 		// profile faults injected before signing (the IdP signs them): rejected by Validate although signed
 		profileFault := ""
-		if r.Intn(7) == 0 || (focus == "C03" && r.Intn(2) == 0) {
+		if !hugeFirst && (r.Intn(7) == 0 || (focus == "C03" && r.Intn(2) == 0)) {
 			a := rs.Assertions[r.Intn(len(rs.Assertions))]
 			switch r.Intn(11) {
 			case 5:
@@ -979,8 +1034,16 @@ func runResponseStream(c *Ctx, n int, focus string) {
 				a.Method = "urn:oasis:names:tc:SAML:2.0:cm:holder-of-key"
 				profileFault = "method"
 			case 3:
-				rs.StatusCode = sp2("urn:oasis:names:tc:SAML:2.0:status:Requester")
+				rs.StatusCode = sp2(pick(r, "urn:oasis:names:tc:SAML:2.0:status:Requester", "urn:oasis:names:tc:SAML:2.0:status:Responder", "urn:oasis:names:tc:SAML:2.0:status:VersionMismatch"))
 				profileFault = "status"
+				// the TOP-LEVEL code decides (SAML core 3.2.2.2); a nested Success below a failure is still a failure
+				switch r.Intn(3) {
+				case 0:
+					rs.StatusInner = []string{"urn:oasis:names:tc:SAML:2.0:status:Success"}
+				case 1:
+					rs.StatusInner = []string{"urn:oasis:names:tc:SAML:2.0:status:AuthnFailed", "urn:oasis:names:tc:SAML:2.0:status:Success"}
+					rs.StatusMessage = "urn:oasis:names:tc:SAML:2.0:status:Success"
+				}
 			default:
 				rs.Destination = "https://evil.example.com/acs"
 				profileFault = "destination"
@@ -1005,6 +1068,11 @@ func runResponseStream(c *Ctx, n int, focus string) {
 				a.NOA = renderInstant(r, now) // boundary: the subject confirmation expires exactly now
 				profileFault = "expired"
 			}
+		}
+		if profileFault != "status" && rs.StatusCode != nil && r.Intn(12) == 0 {
+			// a Success with a second-level code / message is legal and still a Success
+			rs.StatusInner = []string{pick(r, "urn:oasis:names:tc:SAML:2.0:status:PartialLogout", "urn:oasis:names:tc:SAML:2.0:status:AuthnFailed", "urn:example:idp:status:mfa-skipped")}
+			rs.StatusMessage = pick(r, "", "ok", "urn:oasis:names:tc:SAML:2.0:status:Responder")
 		}
 		doc := g.buildSigned(rs, placement, key, mod)
 		rc := &respCase{sp: sp, store: store, now: now, rs: rs, genuine: true}
@@ -1065,6 +1133,10 @@ func runResponseStream(c *Ctx, n int, focus string) {
 		case r.Intn(3) > 0:
 			nEd = 1 + r.Intn(2)
 		}
+		if hugeFirst {
+			nEd = 1
+			rc.labels = append(rc.labels, "first-assertion-exhausts-traversal-budget")
+		}
 		if nEd > 0 {
 			d2 := etree.NewDocument()
 			if err := d2.ReadFromBytes(raw); err == nil {
@@ -1072,6 +1144,9 @@ func runResponseStream(c *Ctx, n int, focus string) {
 					kind := r.Intn(nEdits)
 					if focus == "C08" {
 						kind = 10
+					}
+					if hugeFirst {
+						kind = 5 // forged sibling appended
 					}
 					if l := g.applyEdit(d2, rs, w, kind); l != "" {
 						rc.labels = append(rc.labels, l)
@@ -1106,6 +1181,47 @@ func runResponseStream(c *Ctx, n int, focus string) {
 					rc.genuine = false
 				}
 				raw, _ = d2.WriteToBytes()
+			}
+		}
+		// --- the Response's OWN signature, made with a key that cannot vouch, NOT as a direct child of the root ---
+		// (goxmldsig takes as "the element's signature" a ds:Signature at ANY depth whose Reference names the root's ID, so a
+		// signature below samlp:Extensions is present-but-bad, never "missing": C02 "rejected outright and never downgraded
+		// to unsigned", whatever the assertions carry)
+		if (focus == "C02" || focus == "C01" || focus == "C04") && r.Intn(10) == 0 {
+			d3 := etree.NewDocument()
+			if err := d3.ReadFromBytes(raw); err == nil && d3.Root() != nil && d3.Root().SelectAttrValue("ID", "") != "" {
+				root := d3.Root()
+				for _, ch := range root.ChildElements() {
+					if ch.Tag == "Signature" {
+						root.RemoveChild(ch)
+					}
+				}
+				o := g.randSignOpts(w.Attacker)
+				if r.Intn(2) == 0 {
+					o.EmbedCert = w.IdP1
+				}
+				if err := signInPlace(root, *o); err == nil {
+					var sig *etree.Element
+					for _, ch := range root.ChildElements() {
+						if ch.Tag == "Signature" {
+							sig = ch
+						}
+					}
+					if sig != nil {
+						idx := sig.Index()
+						root.RemoveChild(sig)
+						ext := etree.NewElement(rs.Style.p("Extensions"))
+						ext.AddChild(sig)
+						root.InsertChildAt(idx, ext)
+						rs.SignedBy = o
+						for _, a := range rs.Assertions {
+							a.CoveredByResp = false
+						}
+						rc.labels = append(rc.labels, "bad-own-signature-below-extensions")
+						rc.genuine = false
+						raw, _ = d3.WriteToBytes()
+					}
+				}
 			}
 		}
 		rc.raw = raw
@@ -1317,6 +1433,7 @@ func (g *xgen) randEncOpts(w *World) *EncOpts {
 	if g.r.Intn(2) == 0 {
 		o.EmbedCert = w.SPEnc
 	}
+	o.B64Layout = g.r.Intn(4)
 	return o
 }
 
@@ -1413,6 +1530,9 @@ func runOneResponse(c *Ctx, cs *CaseSet, rc *respCase, respSigOK bool, profileFa
 				}
 			}
 			for _, l := range rc.labels {
+				if l == "bad-own-signature-below-extensions" {
+					c.Violate("spec", "response:bad-signature-accepted", "the Response carries its own signature (a ds:Signature below samlp:Extensions whose Reference names the Response ID) made with a key that cannot vouch; it was accepted: a present-but-bad signature was downgraded to 'unsigned'", replay)
+				}
 				if l == "attacker-encrypted-forged-nested" {
 					c.Violate("spec", "encrypted:nested-not-rejected", "a Response carrying an EncryptedAssertion that is not a direct child of the Response was accepted", replay)
 				}
